@@ -51,6 +51,16 @@ CLAIMS = {
         "note": "Trusts CrossHair/z3 (floats modelled as reals: exact arithmetic), the virtual-time stubs vf/vloop.py and vf/vthread.py (a timer thread's body runs atomically at its deadline, between harness calls or inside the slow action). Outside: real scheduler latency, pre-emptive thread interleavings inside send(), more than two stimuli, machines other than TM.",
         "design": "DESIGN.md section 4 C08",
     },
+    "C09": {
+        "text": "Bounded symbolic check under a virtual clock: an invoke machine (compound invoking state, declared input, onDone/onError, leave / re-enter / deep re-entry / slow action / stop) with symbolic service completion time and outcome and two stimuli at symbolic instants: each entry starts the service exactly once with the declared input; a completion of the current activation is processed exactly once with data = return value / exception; a completion of an exited activation - even after re-entry - drives nothing; at quiescence and after stop() no service task is alive; a failing service without onError puts the interpreter into status error with the exception recorded; invoking a child machine starts one child per activation, fires onDone when it finishes and stops/unregisters it on exit/stop. Both engines (sync services complete at once).",
+        "note": "Trusts CrossHair/z3 (floats as reals) and the virtual-time stubs. One machine family (IM, IM2, IM3); the service awaits only asyncio.sleep, so cancellation lands at that await; the sync engine's machine-invoke uses a polling runner thread (time.sleep) which the virtual threads cannot model and is skipped.",
+        "design": "DESIGN.md section 4 C09",
+    },
+    "C14": {
+        "text": "Bounded symbolic check under a virtual clock: symbolic sequences of lifecycle operations (start, send of 5 event kinds, stop, snapshot->restore, advance time) on a lifecycle machine with an after timer, a delayed self-send, an invoked service, a failing service and a spawned child that owns a heartbeat timer: status only moves along the lifecycle automaton; start() idempotent while running/done/error, raises on a stopped interpreter, resumes a restored one; send() outside 'running' changes and queues nothing; stop() idempotent in every status and afterwards no timer/service/delayed-send task or thread, no registry entry and no running descendant actor remains and 100 ms of virtual time produce no activity. Both engines.",
+        "note": "Trusts CrossHair/z3 and the virtual-time stubs; census = asyncio tasks of the virtual loop / pending virtual threads / interpreter registries, not OS threads. Sequences of 3-4 (quick) or 3-5 (thorough) operations; operations are sequential (no stop() from another thread mid-macrostep).",
+        "design": "DESIGN.md section 4 C14",
+    },
     "C10": {
         "text": "Bounded symbolic check: one event from every stable configuration of a completion machine (3-region parallel state with history child, nested compound with its own onDone, targetless parallel onDone; also a variant with prefix-named regions) and symbolic event sequences from start(): onDone fires exactly when the independently recomputed doneness rises, never while a region is not final, done data = final state's output; top-level final: status done once, on_done once, machine-level output precedence (4 variants incl. falsy), later sends are no-ops, stop() still works. Both engines.",
         "note": "Trusts CrossHair/z3 and done_ref in harness/c10.py. One fixed machine family (DM, DM2, TOP0-3), sequences <= 3 (quick) / 4; release of timers/services/actors by stop() after completion is C14's subject.",
